@@ -15,7 +15,7 @@ from .common import MachineryError, dump_json
 from .corpus import DIALECTS, accepted, rejected, mutations, soups, vocabulary
 
 
-def build_cases(ctx, n_stmts, muts, n_soups):
+def build_cases(ctx, n_stmts, muts, n_soups, n_gram=30):
     rng = random.Random(ctx.seed + 2)
     cases = []
     for f in ctx.findings:      # listed findings are re-executed first, deterministically
@@ -36,6 +36,16 @@ def build_cases(ctx, n_stmts, muts, n_soups):
         vocab = vocabulary(d, pick[:200])
         for s in soups(d, rng, n_soups, vocab):
             cases.append((s, d, 'soup'))
+    # sentences of the exported grammars (TLC GrammarGen) and token-level mutants of some of them
+    from . import grammargen
+    for d in DIALECTS:
+        gen = grammargen.texts(ctx, d, n_gram if d == 'mindsdb' else max(4, n_gram // 3))
+        for s, types, used in gen:
+            cases.append((s, d, 'grammar-sentence'))
+        rng.shuffle(gen)
+        for s, types, used in gen[:n_stmts]:
+            for kind, m in mutations(d, s, rng, limit=4):
+                cases.append((m, d, 'grammar-' + kind))
     seen = set()
     out = []
     for c in cases:
@@ -100,7 +110,8 @@ def run(ctx):
 
     # --- conformance half
     from .corpus import pmap
-    cases = build_cases(ctx, 100000 if thorough else 400, 60 if thorough else 14, 20000 if thorough else 1500)
+    cases = build_cases(ctx, 100000 if thorough else 220, 60 if thorough else 10, 20000 if thorough else 700,
+                        400 if thorough else 16)
     results = pmap(_trace_one_c02, [(s, d) for s, d, _ in cases], chunksize=16)
     # driver-level validation
     dverd = [None] * len(cases)
